@@ -6,6 +6,7 @@ import YkDrv.StreamDrv
 import YkDrv.QueueDrv
 import YkDrv.CoreDrv
 import YkDrv.SortDrv
+import YkDrv.PlaceDrv
 open Lean YkDrv
 
 structure DrvState where
@@ -13,6 +14,7 @@ structure DrvState where
   node : NodeSt := {}
   queue : QueueSt := {}
   core : CoreSt := {}
+  place : PlaceSt := {}
 
 def dispatch (st : DrvState) (j : Json) : Except String (DrvState × String) := do
   let c ← (fld j "c") >>= jStr
@@ -24,6 +26,7 @@ def dispatch (st : DrvState) (j : Json) : Except String (DrvState × String) := 
   | "core" => let (r, v) ← coreStep st.core j; pure ({ st with core := r }, v)
   | "queue" => let (r, v) ← queueStep st.queue j; pure ({ st with queue := r }, v)
   | "node" => let (r, v) ← nodeStep st.node j; pure ({ st with node := r }, v)
+  | "place" => let (r, v) ← placeStep st.place j; pure ({ st with place := r }, v)
   | _ => pure (st, "bad-op")
 
 partial def loop (h : IO.FS.Stream) (out : IO.FS.Stream) (st : DrvState) : IO Unit := do
